@@ -275,6 +275,59 @@ def run_spec(job):
                                 except Exception as e:
                                     v.update(reproduced=False, diffs=['replay failed: %r' % (e,)], scenario=None)
                                 res['violations'].append(v)
+            # ---- composed step (C15): a converted legacy bid is then cancelled by its owner with the payouts its event log implies
+            if opts.get('extra') == 'then_cancel_converted' and p.kind == 'ok':
+                for fol, req2, p2 in ST.run_second(sc, p, ST.default_spec('CancelBid'), PX='req2'):
+                    res['paths']['then:' + p2.kind] += 1
+                    if p2.kind != 'ok':
+                        continue
+                    for ob in P.c15_then_cancel(fol, sc, req2, p2):
+                        name = 'C15:' + ob.name
+                        r, m = dec.check(list(p2.pc) + env + ob.neg, name)
+                        res['obligations'][(name, r)] += 1
+                        if r == 'unknown':
+                            res['unknown'].append({'obligation': name, 'spec': res['spec'], 'path': p2.kind})
+                        if r == 'sat':
+                            sig = finding_signature('C15', ob, 'CancelBid')
+                            if any(v['signature'] == sig for v in res['violations']):
+                                continue
+                            v = {'signature': sig, 'spec': res['spec'], 'path': p2.kind, 'detail': p2.detail}
+                            try:
+                                scen, c = H.build_replay(sc, m, step, eng)
+                                scen['steps'].append({'kind': 'execute', 'sender': c.term_string(req2['sender'], 'sender'), 'funds': [], 'msg': c.json(req2['msg'], eng.ti, eng.serde_rename)})
+                                nat = H.run_replay(scen)['steps']
+                                diffs = H.compare_replay(H.predicted_result(p, c, eng), None, nat[0]) + H.compare_replay(H.predicted_result(p2, c, eng), H.storage_json(p2.world, c, eng), nat[1])
+                                v.update(scenario=scen, native=nat, predicted=None, reproduced=not diffs, diffs=diffs)
+                            except Exception as e:
+                                v.update(reproduced=False, diffs=['replay failed: %r' % (e,)], scenario=None)
+                            res['violations'].append(v)
+            # ---- composed step (C16): what the order query reported is what the owner's cancel then returns
+            if opts.get('extra') == 'then_cancel' and p.kind == 'ok' and req.get('q') in ('GetAsk', 'GetBid'):
+                kind2 = 'CancelAsk' if req['q'] == 'GetAsk' else 'CancelBid'
+                for fol, req2, p2 in ST.run_second(sc, p, ST.default_spec(kind2), PX='req2'):
+                    res['paths']['then:' + p2.kind] += 1
+                    if p2.kind != 'ok':
+                        continue
+                    for ob in P.c16_then_cancel(fol, req, p, req2, p2):
+                        name = 'C16:' + ob.name
+                        r, m = dec.check(list(p2.pc) + env + ob.neg, name)
+                        res['obligations'][(name, r)] += 1
+                        if r == 'unknown':
+                            res['unknown'].append({'obligation': name, 'spec': res['spec'], 'path': p2.kind})
+                        if r == 'sat':
+                            sig = finding_signature('C16', ob, kind2)
+                            if any(v['signature'] == sig for v in res['violations']):
+                                continue
+                            v = {'signature': sig, 'spec': res['spec'], 'path': p2.kind, 'detail': p2.detail}
+                            try:
+                                scen, c = H.build_replay(sc, m, step, eng)
+                                scen['steps'].append({'kind': 'execute', 'sender': c.term_string(req2['sender'], 'sender'), 'funds': [], 'msg': c.json(req2['msg'], eng.ti, eng.serde_rename)})
+                                nat = H.run_replay(scen)['steps']
+                                diffs = H.compare_replay(H.predicted_result(p, c, eng), None, nat[0]) + H.compare_replay(H.predicted_result(p2, c, eng), H.storage_json(p2.world, c, eng), nat[1])
+                                v.update(scenario=scen, native=nat, predicted=None, reproduced=not diffs, diffs=diffs)
+                            except Exception as e:
+                                v.update(reproduced=False, diffs=['replay failed: %r' % (e,)], scenario=None)
+                            res['violations'].append(v)
             # ---- composed step: the same migration once more from the post-state (idempotence)
             if opts.get('extra') == 'idempotence' and p.kind == 'ok' and 'C14' in prop_ids:
                 from . import entry as EN
